@@ -176,7 +176,11 @@ class TransactionalizedFIFO(Elaboratable):
         # Our memory always takes a single cycle to provide its read output; so we'll update its address
         # "one cycle in advance". Accordingly, if we're about to advance the FIFO, we'll use the next read
         # address as our input. If we're not, we'll use the current one.
-        with m.If(self.read_en & ~self.empty):
+        # If we're discarding our reads, we're about to jump back to our committed position; so that's the
+        # address whose data we'll need on the next cycle.
+        with m.If(self.read_discard):
+            m.d.comb += read_port.addr.eq(committed_read_pointer)
+        with m.Elif(self.read_en & ~self.empty):
             m.d.comb += read_port.addr.eq(next_read_pointer)
         with m.Else():
             m.d.comb += read_port.addr.eq(current_read_pointer)
